@@ -374,6 +374,7 @@ def r_fanout(F, R, cat=None):
             if t != NONE:
                 iroutes |= routes(nobb(t), ("Region", "index"))
         fields = [f["name"] for f in F.adts[adt]["variants"][0]["fields"]]
+        direct = forwards = 0
         for b in F.methods_of_trait("Push", "push"):
             if b.self_adt != adt:
                 continue
@@ -392,6 +393,18 @@ def r_fanout(F, R, cat=None):
             if not pr or not iroutes:
                 R.undecided_site("R-FANOUT", b.label(), "routing not recognised: %s" % unknown)
                 continue
+            if all(f == () for (c, f, p) in pr):
+                # the receiver of the inner push is the region itself: a forward to a sibling Push
+                # impl of the same region, which is checked as its own instance
+                whole = all(c == () and p == () for (c, f, p) in pr) and not unknown
+                if whole:
+                    forwards += 1
+                    R.check("R-FANOUT", b.label(), True, construct="forwards the whole item to a sibling Push impl",
+                            where=b.where(), detail="value-preserving forward; routing checked at the sibling impl")
+                else:
+                    R.undecided_site("R-FANOUT", b.label(), "forwards part of the item to a sibling impl: %s" % sorted(pr)[:3])
+                continue
+            direct += 1
             # (1) constructor -> child agreement with index()
             m_push = {(c, f) for (c, f, p) in pr}
             m_idx = {(c, f) for (c, f, p) in iroutes}
@@ -411,6 +424,9 @@ def r_fanout(F, R, cat=None):
                     construct="component i -> child i -> index position i, and index() routes it back",
                     where=b.where(),
                     detail="push routes %s; index routes %s" % (sorted(pr)[:4], sorted(iroutes)[:4]))
+        if forwards and not direct:
+            R.check("R-FANOUT", short(adt), False, construct="some Push impl routes the components itself",
+                    where=ib.where(), detail="%d impls only forward to each other" % forwards)
     R.floor("R-FANOUT", "fan-out push impls", n, 6)
 
 
